@@ -1076,13 +1076,14 @@ fn emit_family(prop: &str, seed: u64, quick: bool, out: &mut Vec<Fail>) -> usize
                 // modules) and emitted on a fresh thread, so that state the printer keeps between modules or between calls (a memo, a
                 // thread-local) shows as a difference instead of being shared by both sides
                 for _rep in 0..4 {
-                if let (Outcome::Ok(sa), Outcome::Ok(sb)) = (build_modules(&a, ptr), build_modules(&b, ptr)) {
-                    let (ea, eb) = std::thread::scope(|sc| {
-                        let ha = sc.spawn(|| emit_checked(ptr, &sa, &a, &dir.join("a")));
-                        let ea = ha.join();
-                        let hb = sc.spawn(|| emit_checked(ptr, &sb, &b, &dir.join("b")));
-                        (ea, hb.join())
-                    });
+                {
+                    // build AND emit on the fresh thread: nothing of the built state crosses a thread boundary (a tree under check may
+                    // make the state !Sync, e.g. with a RefCell memo - the tool must still build against it)
+                    let side = |mods: &Vec<(&'static str, String)>, sub: &str| -> Result<Option<emit::Emitted>, ()> {
+                        let d = dir.join(sub);
+                        std::thread::scope(|sc| sc.spawn(|| match build_modules(mods, ptr) { Outcome::Ok(st) => Some(emit_checked(ptr, &st, mods, &d)), _ => None }).join()).map_err(|_| ())
+                    };
+                    let (ea, eb) = match (side(&a, "a"), side(&b, "b")) { (Ok(Some(x)), Ok(Some(y))) => (Ok::<_, ()>(x), Ok::<_, ()>(y)), _ => continue };
                     let (Ok(ea), Ok(eb)) = (ea, eb) else { continue };
                     if ea.files.get(key) != eb.files.get(key) || ea.files.get(key).is_none() {
                         out.push(Fail { family: "emit", input: format!("{}\n// ==== changed input set ({what}); observed module `{key}`\n{}", join_sources(&a), join_sources(&b)), ptr, expected: format!("output of module `{key}` byte-identical"), actual: first_diff(ea.files.get(key), eb.files.get(key)) });
